@@ -9,13 +9,14 @@ import (
 )
 
 func init() {
-	Explanations["C05"] = "Decides structural necessary conditions of 'the pool is a valid continuation of the tip' in chain.Manager and the miner: (R1) every exported Manager method that reads the pool's lists, index map or weight — directly, in a closure, or through an unexported helper that does — calls the revalidation step after locking and before the first such read; (R2) every success return of the tip walker passes the store that discards the pool's mid-state; (R3) in the apply step Store.ApplyBlock(cs, cau) is followed on every path by the pool's apply update with the same two values, and likewise for revert; (R4) every registration of a transaction in the pool's index map is dominated by the success edge of consensus.Validate(V2)Transaction against the pool's mid-state for that transaction (directly, or through a staging slice filled only on that edge) and each such validation success is followed by the matching mid-state Apply; (R5) in MineBlock every append to the block's transaction lists lies on the passing side of the block-weight test and the loop leaves (break/return) on the failing side, so a prefix is taken. NOT decided: that moved proofs verify, that a mined block is accepted, retention until confirmation."
+	Explanations["C05"] = "Decides structural necessary conditions of 'the pool is a valid continuation of the tip' in chain.Manager and the miner: (R1) every exported Manager method that reads the pool's lists, index map or weight — directly, in a closure, or through an unexported helper that does — calls the revalidation step after locking and before the first such read; (R2) every success return of the tip walker passes the store that discards the pool's mid-state; (R3) in the apply step Store.ApplyBlock(cs, cau) is followed on every path by the pool's apply update with the same two values, and likewise for revert; (R4) every registration of a transaction in the pool's index map is dominated by the success edge of consensus.Validate(V2)Transaction against the pool's mid-state for that transaction (directly, or through a staging slice filled only on that edge) and each such validation success is followed by the matching mid-state Apply; (R5) in MineBlock every append to the block's transaction lists lies on the passing side of the block-weight test and the loop leaves (break/return) on the failing side, so a prefix is taken; (R6) the proof updater used when blocks are applied/reverted under the pool excludes the ephemeral sentinel before range-checking a leaf index, so a pooled child of a pooled parent is not dropped by an unrelated block. NOT decided: that moved proofs verify, that a mined block is accepted, retention until confirmation."
 
 	register(&Rule{ID: "C05.R1", Prop: "C05", Floor: 10, Doc: "revalidate-before-read in every exported pool reader", Run: c05r1})
 	register(&Rule{ID: "C05.R2", Prop: "C05", Floor: 1, Doc: "tip change discards the pool mid-state", Run: c05r2})
 	register(&Rule{ID: "C05.R3", Prop: "C05", Floor: 2, Doc: "store apply/revert is paired with the pool update for the same update and state", Run: c05r3})
 	register(&Rule{ID: "C05.R4", Prop: "C05", Floor: 4, Doc: "only transactions validated against the pool mid-state are admitted, and each is applied to it", Run: c05r4})
 	register(&Rule{ID: "C05.R5", Prop: "C05", Floor: 2, Doc: "mined block takes pool prefixes up to the weight limit", Run: c05r5})
+	register(&Rule{ID: "C05.R6", Prop: "C05", Floor: 1, Doc: "moving pooled proofs does not declare ephemeral inputs invalid (same check as C13.R6)", Run: ephemeralSkipped})
 }
 
 // revalidateFn: the unexported, parameterless Manager method that rebuilds the mid-state (assigns txpool.ms a non-nil value).
@@ -37,7 +38,10 @@ func revalidateFn(c *Ctx, pf poolFields) *ir.Func {
 	return out
 }
 
-func c05r1(c *Ctx) {
+func c05r1(c *Ctx) { poolReadersRevalidate(c, nil) }
+
+// poolReadersRevalidate checks revalidate-before-read for the exported Manager methods accepted by filter (nil: all).
+func poolReadersRevalidate(c *Ctx, filter func(*ir.Func) bool) {
 	pf := getPoolFields(c.P)
 	reval := revalidateFn(c, pf)
 	methods := c.P.MethodsOf("chain", "Manager")
@@ -79,7 +83,7 @@ func c05r1(c *Ctx) {
 		}
 	}
 	for _, f := range methods {
-		if !exported(f) {
+		if !exported(f) || (filter != nil && !filter(f)) {
 			continue
 		}
 		g := f.Graph()
